@@ -183,13 +183,17 @@ def c04e(ctx, tu):
     from engine.auto import Explorer, fmt_trace
 
     def classify(fn, ev, env):
+        # only the walk itself advances over the expectations (printing code further down has loops of its own)
+        walker = fn.qe == A["decommission"]
         if ev["e"] == "incdec":
-            return ("sym", "advance")
+            return ("sym", "advance") if walker else None
         if ev["e"] != "call":
             return None
         n = qe(ev)
         if n == "trompeloeil::list::iterator::operator++":
-            return ("sym", "advance")
+            return ("sym", "advance") if walker else ("skip",)
+        if n in (A["report_missed"], A["report_unfulfilled"]):
+            return ("skip",)
         if n == A["unlink"]:
             return ("sym", "unlink")
         if n == "trompeloeil::list_elem::is_linked":
